@@ -53,7 +53,7 @@ type SourceParagraph struct {
 	Paragraph
 
 	Maintainer  string
-	Uploaders   []string `delim:","`
+	Uploaders   []string `delim:"," strip:"\n\r\t "`
 	Source      string
 	Priority    string
 	Section     string
@@ -145,10 +145,16 @@ func ParseControl(reader *bufio.Reader, path string) (*Control, error) {
 		Source:   SourceParagraph{},
 	}
 
-	if err := Unmarshal(&ret.Source, reader); err != nil {
+	/* Both parts have to come out of one Decoder: a second one would start
+	 * behind whatever the first one had read ahead into its buffer. */
+	decoder, err := NewDecoder(reader, nil)
+	if err != nil {
 		return nil, err
 	}
-	if err := Unmarshal(&ret.Binaries, reader); err != nil {
+	if err := decoder.Decode(&ret.Source); err != nil {
+		return nil, err
+	}
+	if err := decoder.Decode(&ret.Binaries); err != nil {
 		return nil, err
 	}
 
